@@ -70,8 +70,8 @@ package encoding
 //@   derives[inv] old(omInvCBOR(o)) ==> omInvCBOR(o) from inv-dom inv-nodup
 //@   modifies o.Keys, mapOf(o.Fields), elems(o.Keys)
 
-//@ bounded[C15,C05] delete-cbor : every duplicate-free key sequence of length <= 6 over 7 keys, every key deleted :: boundedDeleteCBOR(6, 7)
-//@ bounded[C15,C05] delete-json : every duplicate-free key sequence of length <= 6 over 7 keys, every key deleted :: boundedDeleteJSON(6, 7)
+//@ bounded[C15,C05] delete-cbor : every duplicate-free key sequence of length <= 6 over 7 keys, every key deleted; thorough tier: length <= 7 over 8 keys :: boundedDeleteCBOR(6, 7)
+//@ bounded[C15,C05] delete-json : every duplicate-free key sequence of length <= 6 over 7 keys, every key deleted; thorough tier: length <= 7 over 8 keys :: boundedDeleteJSON(6, 7)
 
 //@ func (*encoding.structFieldsCBOR).Delete
 //@   property C15 C05
@@ -268,6 +268,6 @@ package encoding
 //@   ensures[err] ret1 != nil ==> ret0 == nil
 //@   modifies nothing
 
-//@ bounded[C15,C09] reflect-cbor : 26 values over 5 struct shapes (flat / one / two levels of embedding / embedded interface holding a struct or a pointer), every subset of 3 optional fields, synthetic structs of 0,1,23,24,25,255,256,257 fields :: boundedReflectCBOR()
+//@ bounded[C15,C09] reflect-cbor : 26 values over 5 struct shapes (flat / one / two levels of embedding / embedded interface holding a struct or a pointer), every subset of 3 optional fields, synthetic structs of 0,1,23,24,25,255,256,257 fields; thorough tier: synthetic structs of every field count 0..300 and 65535, 65536, 65537 :: boundedReflectCBOR()
 //@ bounded[C15,C09,C12] reflect-json : the same 26 values over 5 struct shapes, JSON side :: boundedReflectJSON()
-//@ bounded[C05] populate-no-panic : every truncation of 31 CBOR and 31 JSON seed documents, every value of each of the first 6 bytes of each CBOR seed :: boundedPopulateNoPanic()
+//@ bounded[C05] populate-no-panic : every truncation of 31 CBOR and 31 JSON seed documents, every value of each of the first 6 bytes of each CBOR seed; thorough tier: every value of every byte of each CBOR seed :: boundedPopulateNoPanic()
